@@ -296,6 +296,84 @@ func checkC19(r *core.Run) {
 		r.Check(why == "", "C19.live", core.ShortKey(f.Obj)+" returns only sessions seen open in this invocation (or nil)", w.Pos(f.Decl.Pos()), "every returned session was tested !IsClosed() after it was read",
 			"a closed session can be chosen: "+why)
 	}
+	// "nil only when none is open": inside a policy's Range callback the selection state (variables of the policy
+	// captured by the callback: minimum, counters, candidate list, the chosen session) is assigned only on paths
+	// where the session at hand was tested open — a closed session must not take part in the choice
+	for _, f := range dedupFns(targets) {
+		info := f.Pkg.TypesInfo
+		ast.Inspect(f.Decl.Body, func(n ast.Node) bool {
+			c, ok := n.(*ast.CallExpr)
+			if !ok {
+				return true
+			}
+			callee := core.Callee(info, c)
+			if callee == nil || callee.Name() != "Range" || len(c.Args) != 1 {
+				return true
+			}
+			lit, ok := ast.Unparen(c.Args[0]).(*ast.FuncLit)
+			if !ok {
+				return true
+			}
+			// the variable holding the session at hand: assigned from the callback's key/value parameter
+			cur := map[types.Object]bool{}
+			ast.Inspect(lit.Body, func(m ast.Node) bool {
+				if as, ok := m.(*ast.AssignStmt); ok && len(as.Lhs) >= 1 && len(as.Rhs) == 1 {
+					if ta, ok := ast.Unparen(as.Rhs[0]).(*ast.TypeAssertExpr); ok {
+						if id, ok := ast.Unparen(ta.X).(*ast.Ident); ok {
+							if pv, ok := info.Uses[id].(*types.Var); ok && pv.Pos() >= lit.Type.Pos() && pv.Pos() < lit.Type.End() {
+								cur[core.ObjOf(info, as.Lhs[0])] = true
+							}
+						}
+					}
+				}
+				return true
+			})
+			tests := false
+			ast.Inspect(lit.Body, func(m ast.Node) bool {
+				if cc, ok := m.(*ast.CallExpr); ok {
+					if g := core.Callee(info, cc); g != nil && g.Name() == "IsClosed" {
+						tests = true
+					}
+				}
+				return true
+			})
+			if !tests {
+				return true // judged by the returned-session rule above (e.g. a ring built from sessions checked elsewhere)
+			}
+			sp := &flow.Spec{W: w, Depth: 0,
+				Classify: func(pkg *packages.Package, call *ast.CallExpr, callee *types.Func) []flow.Tag {
+					if callee != nil && callee.Name() == "IsClosed" {
+						return []flow.Tag{"closed"}
+					}
+					return nil
+				},
+				AssignTags: func(pkg *packages.Package, as *ast.AssignStmt) []flow.Tag {
+					for _, l := range as.Lhs {
+						o := core.ObjOf(pkg.TypesInfo, l)
+						if ix, ok := ast.Unparen(l).(*ast.IndexExpr); ok {
+							o = core.ObjOf(pkg.TypesInfo, ix.X)
+						}
+						if o == nil || cur[o] {
+							continue
+						}
+						if o.Pos() < lit.Pos() || o.Pos() >= lit.End() { // captured from the policy function
+							return []flow.Tag{"select"}
+						}
+					}
+					return nil
+				}}
+			res := sp.AnalyzeLit(f.Pkg, lit)
+			for _, ap := range res.Assigns {
+				if !inSet("select", ap.Tags...) {
+					continue
+				}
+				r.Sites++
+				r.Check(ap.Before.Has("false:closed"), "C19.live", core.ShortKey(f.Obj)+" : '"+core.ExprString(ap.Stmt.Lhs[0])+"' is updated for open sessions only", w.Pos(ap.Stmt.Pos()), "under !IsClosed()",
+					"the selection state is updated for a session that has not been tested open on this path: a closed session still in the registry takes part in the choice (it can lower the minimum, empty the candidate list, or be remembered), so nil or a worse session is answered although open sessions exist")
+			}
+			return true
+		})
+	}
 	// ---- C19.xid
 	c19Xid(r)
 	// ---- C19.announce
